@@ -693,6 +693,12 @@ class Engine:
                     return z3.BoolVal(item.d in o.items)
                 it = self.as_sym(item)
                 return z3.Or([self.py_eq(self.lift(k), it) for k in o.items] or [z3.BoolVal(False)])
+            if isinstance(o, RangeObj):
+                it = self.as_sym(item)
+                if not isinstance(it.shape, (IntS, BoolS)):
+                    return z3.BoolVal(False)
+                x = self._int(it)
+                return z3.And(o.lo <= x, x < o.hi)       # range(lo, hi), step 1
             if isinstance(o, (list, tuple, dict, set, frozenset)):
                 if isinstance(item.shape, ConcS):
                     return z3.BoolVal(item.d in o)
@@ -869,6 +875,15 @@ class Engine:
         if isinstance(s, TdS):
             if name == "total_seconds":
                 return V.vconc(BuiltinMethod(v, "td.total_seconds"))
+            # normalised components: days (floor), seconds in [0, 86400), microseconds in [0, 10**6)
+            us = v.d
+            if name == "microseconds":
+                return V.vint(us % 1000000)
+            if name == "seconds":
+                return V.vint((us / 1000000) % 86400) if False else V.vint(((us - us % 1000000) / 1000000) % 86400)
+            if name == "days":
+                secs = (us - us % 1000000) / 1000000
+                return V.vint((secs - secs % 86400) / 86400)
             raise OutOfSubset(f"timedelta.{name}")
         if isinstance(s, SeqS):
             if name in ("append",):
